@@ -343,6 +343,13 @@ def build(shapes, seed=0, mode="binds", formname="data", homonyms=False):
         for lst in sorted(lists_used):
             for i in (1, 2):
                 ch.append([lst, f"{lst.lower()}{i}", f"C {lst}{i}"])
-        sheets.append({"name": "choices", "header": ["list_name", "name", "label"], "rows": ch})
+        chdr = ["list_name", "name", "label"]
+        # a choices column (data for choice filters) may be called like a survey column, whatever that name means on the survey sheet
+        same = [c for c in cols if re.fullmatch(r"[A-Za-z_]+", c) and c.lower() not in ("type", "name", "label", "list_name", "hint", "appearance", "parameters", "default", "trigger", "media", "image", "audio", "video")]
+        prnd = random.Random(f"chcol:{seed}:{mode}:{shapes}")
+        if same and prnd.random() < 0.35:
+            chdr.append(prnd.choice(same))
+            ch = [r + [f"v{i}"] for i, r in enumerate(ch)]
+        sheets.append({"name": "choices", "header": chdr, "rows": ch})
     src = {"binds": f.binds, "defaults": f.defaults, "triggers": f.triggers}
     return {"sheets": sheets}, src
